@@ -1572,6 +1572,8 @@ class Frame:
         return out
 
     def e_UnaryOp(self, e, p):
+        if isinstance(e.op, ast.USub) and isinstance(e.operand, ast.Constant) and isinstance(e.operand.value, (int, float)) and not isinstance(e.operand.value, bool):
+            return [(p, Const(-e.operand.value))]        # a negative literal
         return [(q, Sym("unop:" + type(e.op).__name__, (t,))) for q, t in self.expr(e.operand, p)]
 
     def e_BoolOp(self, e, p):
